@@ -135,6 +135,13 @@ class FilterStore(Store[T]):
         """Get an item out of the store that satisfies ``filter``"""
         return FilterStoreGet(self, filter)
 
+    def _trigger_get(self, put_event):
+        # A request whose filter matches no item stays pending,
+        # but it must not block later requests whose filter does match.
+        for event in list(self.get_queue):
+            if self._do_get(event):
+                self.get_queue.remove(event)
+
     def _do_get(self, event: FilterStoreGet):
         event_filter = event.filter
         try:
